@@ -1,5 +1,93 @@
+"""C09: every pavexc execution ends with a verdict and fails atomically (process monitor over the shared e2e corpus and the planted
+corpus); the thorough tier adds a memcheck supplement: a few accepted applications are re-generated under valgrind with a warm docs
+cache (the only `unsafe` on the path are the rkyv `access_unchecked` readers of the cache)."""
+import os
+import re
+import threading
+
+from lib import vlib, e2e_env
+from e2e import slots
 from checks import e2e_common
+
+N_VALGRIND = {"quick": 0, "thorough": 4}
+
+
+def valgrind_supplement(ctx, cases, results):
+    n = N_VALGRIND[ctx.tier]
+    out = {"valgrind_runs": 0, "valgrind_memcheck_errors": 0, "valgrind_samples": []}
+    if n == 0:
+        return out
+    picked = [c for c in cases if c["mode"] == "inclass" and results.get(c["id"], {}).get("stages", {}).get("pavexc", {}).get("rc") == 0][:n]
+    lock = threading.Lock()
+
+    def work(slot, c):
+        slots.write_case(slot, c["spec"])
+        ok, err = slots.build_app(slot)
+        if not ok:
+            return
+        d = slots.slot_dir(slot)
+        env = e2e_env.pavexc_env(os.path.join(d, "home"))
+        env["CARGO_TARGET_DIR"] = os.path.join(d, "target")
+        log = os.path.join(d, "valgrind.log")
+        cmd = ["valgrind", "--tool=memcheck", "--error-exitcode=97", "--trace-children=no", "--log-file=" + log, "-q",
+               e2e_env.pavexc_bin(), "generate", "--blueprint", "bp.ron", "--output", "sdk", "--diagnostics", "diag.dot"]
+        rc, so, se, to = vlib.run(cmd, cwd=d, env=env, timeout=2400)
+        try:
+            with open(log) as f:
+                vlog = f.read()
+        except FileNotFoundError:
+            vlog = ""
+        n_err = len(re.findall(r"(?m)^==\d+== (Invalid|Conditional jump|Use of uninitialised|Mismatched|Source and destination overlap)", vlog))
+        with lock:
+            if to:
+                ctx.inconc("valgrind run hit the watchdog", {"case": c["id"]})
+                return
+            out["valgrind_runs"] += 1
+            out["valgrind_memcheck_errors"] += n_err
+            out["valgrind_samples"].append({"case": c["id"], "exit": rc, "memcheck_error_reports": n_err})
+            if rc == 97 or n_err:
+                ctx.violation({"rule": "memcheck_error", "first": (re.findall(r"(?m)^==\d+== (\w[^\n]*)", vlog) or [""])[0][:80]},
+                              {"case": c["id"], "log": vlog[:3000], "spec": c["spec"]})
+    ths = [threading.Thread(target=work, args=(i, c)) for i, c in enumerate(picked)]
+    for t in ths:
+        t.start()
+    for t in ths:
+        t.join()
+    return out
+
+
+def planted_corpus(ctx):
+    """The planted (rule-violating) applications of C08 are pavexc executions too: same process monitor."""
+    import json
+    from checks import c08
+    from e2e import engine, evaluate
+    cases, results, reused = engine.load_or_run(ctx.tier, ctx.seed, "planted", c08.make_cases(ctx.tier, ctx.seed))
+    n = 0
+    exits = {}
+    seen = {}
+    for c in cases:
+        r = results.get(c["id"])
+        if r is None or "pavexc" not in r.get("stages", {}):
+            continue
+        n += 1
+        rc = r["stages"]["pavexc"]["rc"]
+        exits[str(rc)] = exits.get(str(rc), 0) + 1
+        vs, _stats, _status = evaluate.evaluate_case(dict(c, mode="planted"), r)
+        for v in vs:
+            if v["prop"] != "C09":
+                continue
+            key = json.dumps(v["sig"], sort_keys=True)
+            seen[key] = seen.get(key, 0) + 1
+            if seen[key] <= 2:
+                ctx.violation(v["sig"], dict(v["detail"], case=c["id"], spec=c["spec"]))
+    return {"planted_pavexc_executions": n, "planted_exit_codes": exits, "planted_observations_reused_for_same_tree": reused}
+
+
+def extra(ctx, cases, results):
+    out = planted_corpus(ctx)
+    out.update(valgrind_supplement(ctx, cases, results))
+    return out
 
 
 def run(ctx):
-    e2e_common.run_property(ctx, "C09")
+    e2e_common.run_property(ctx, "C09", extra=extra)
